@@ -68,6 +68,9 @@ func c12Exact(cx *explore.Ctx, q run.Query, r run.Result, body *hclsyntax.Body) 
 		}
 		if a.Expr.Range().Start.Byte <= pos.Byte && pos.Byte < a.Expr.Range().End.Byte {
 			if hd != nil && bc.Eff.AttrKnown(name) {
+				if as, ok := bc.Eff.Attributes[name]; ok {
+					c12ObjectKeys(cx, q, hd, a, as.Constraint)
+				}
 				er := a.Expr.Range()
 				if hd.Range.Start.Byte < er.Start.Byte || hd.Range.End.Byte > er.End.Byte {
 					add("hover:value-range-outside-value", "value", fmt.Sprintf("hover range %s is not inside the value %s", fmtRange(hd.Range), fmtRange(er)))
@@ -124,4 +127,45 @@ func c12Exact(cx *explore.Ctx, q run.Query, r run.Result, body *hclsyntax.Body) 
 func firstLevelDep(bs *schema.BlockSchema, b *hclsyntax.Block) *schema.BodySchema {
 	e := model.Effective(bs, b)
 	return e.Dep
+}
+
+// c12ObjectKeys: inside an object literal under an Object constraint, a hover that describes an
+// object attribute (content starting with **name**) must describe the attribute whose item holds
+// the cursor - never a neighbouring item's.
+func c12ObjectKeys(cx *explore.Ctx, q run.Query, hd *lang.HoverData, attr *hclsyntax.Attribute, cons schema.Constraint) {
+	oc, ok := cons.(schema.Object)
+	if !ok || hd == nil {
+		return
+	}
+	obj, ok := attr.Expr.(*hclsyntax.ObjectConsExpr)
+	if !ok {
+		return
+	}
+	if !strings.HasPrefix(hd.Content.Value, "**") {
+		return
+	}
+	rest := hd.Content.Value[2:]
+	end := strings.Index(rest, "**")
+	if end < 0 {
+		return
+	}
+	named := rest[:end]
+	if _, isAttr := oc.Attributes[named]; !isAttr && named != "" {
+		return
+	}
+	for _, it := range obj.Items {
+		ir := hcl.RangeBetween(it.KeyExpr.Range(), it.ValueExpr.Range())
+		if ir.Start.Byte <= q.Pos.Byte && q.Pos.Byte <= ir.End.Byte {
+			key, isLit := model.LiteralKey(it.KeyExpr)
+			cx.L.Count("object_key_hovers", 1)
+			if !isLit || key != named {
+				v := witness(cx, "sweep", q)
+				v.Clause = "hover:describes-other-object-attribute"
+				v.Site = "object-item"
+				v.Detail = fmt.Sprintf("%s: hover %q describes object attribute %q but the cursor is in the item with key %q (literal key: %v)\nfile:\n%s", q, hd.Content.Value, named, string(cx.Src[it.KeyExpr.Range().Start.Byte:it.KeyExpr.Range().End.Byte]), isLit, cx.Case.Text)
+				cx.C.Add(v)
+			}
+			return
+		}
+	}
 }
